@@ -1,4 +1,5 @@
 import ZnVerif.Properties.C08
+import ZnVerif.Properties.C09Sites
 open ZnVerif.Properties.C08
 #print axioms this_is_receiver
 #print axioms this_without_receiver_is_error
@@ -27,3 +28,8 @@ open ZnVerif.Properties.C08
 #print axioms unknown_builtin_method_call_is_error
 #print axioms output_only_grows
 #print axioms call_trace_is_args_then_body
+
+-- regenerated tie: where the Go evaluator pushes / pops frames, opens / closes scopes, stamps lines, reads / writes the return slot
+-- (Generated/FrameSites.lean, extracted from $ZN_REPO on every run) = the sites the models mirror (Properties/C09Sites.lean)
+#print axioms ZnVerif.Properties.C09Sites.frame_sites_all_modelled
+#print axioms ZnVerif.Properties.C09Sites.frame_primitives_all_modelled
